@@ -1,5 +1,83 @@
-"""WIT: compile-fail witnesses (thorough tier) - placeholder until the witness crate is wired in"""
+"""WIT: compile-fail witnesses (thorough tier).  The witness crate path-depends on the tree under analysis;
+`cargo +nightly test --doc` runs rustc on every doctest: a `compile_fail,E0xxx` block must fail with exactly that
+error code, its twin must compile.  The type checker is the deciding step."""
+import os
+import re
+import shutil
+import subprocess
+import sys
+
+HERE = os.path.dirname(os.path.abspath(__file__))
+VERIF = os.path.dirname(HERE)
+sys.path.insert(0, HERE)
+import build  # noqa: E402
+
+SERVES = {
+    "C01": ["w01", "w02", "w04", "w07", "w08", "w09", "w10", "w11", "w13", "w15", "w16"],
+    "C02": ["w03", "w06", "w08"],
+    "C03": ["w05", "w14", "w09"],
+    "C12": ["w16"],
+    "C15": ["w01", "w02", "w03", "w04", "w05", "w06", "w07", "w10", "w11", "w12", "w13", "w14", "w15"],
+}
+_cache = {}
+
+
+def run_witnesses(root):
+    key = build.tree_hash(root)
+    if key in _cache:
+        return _cache[key]
+    wd = os.path.join(build.CACHE, "witness-%s" % key)
+    shutil.rmtree(wd, ignore_errors=True)
+    os.makedirs(os.path.join(wd, "src"))
+    with open(os.path.join(VERIF, "witness", "Cargo.toml.in")) as f:
+        toml = f.read().replace("@HPO_ROOT@", root)
+    with open(os.path.join(wd, "Cargo.toml"), "w") as f:
+        f.write(toml)
+    shutil.copy(os.path.join(VERIF, "witness", "src", "lib.rs"), os.path.join(wd, "src", "lib.rs"))
+    lock = os.path.join(root, "Cargo.lock")
+    if os.path.exists(lock):
+        shutil.copy(lock, os.path.join(wd, "Cargo.lock"))
+    env = dict(os.environ, CARGO_NET_OFFLINE="true", CARGO_TARGET_DIR=os.path.join(build.CACHE, "witness-target"))
+    env.pop("RUSTC_WORKSPACE_WRAPPER", None)
+    r = subprocess.run(["cargo", "+nightly", "test", "--doc", "--offline"], cwd=wd, env=env, stdout=subprocess.PIPE, stderr=subprocess.STDOUT, text=True)
+    out = r.stdout
+    res = {}
+    for m in re.finditer(r"^test src/lib\.rs - (w\d+)_(\w+) \(line (\d+)\)( - compile fail)? \.\.\. (\w+)", out, re.M):
+        wid, name, line, cf, status = m.group(1), m.group(2), int(m.group(3)), bool(m.group(4)), m.group(5)
+        res.setdefault(wid, {"name": name, "fail": None, "twin": None})
+        res[wid]["fail" if cf else "twin"] = status == "ok"
+    shutil.rmtree(wd, ignore_errors=True)
+    info = {"results": res, "raw_tail": out[-3000:], "rc": r.returncode}
+    _cache[key] = info
+    return info
 
 
 def run(ck, pid, ctx):
-    ck.note("witness crate not wired in yet")
+    ids = SERVES.get(pid)
+    if not ids:
+        return
+    ck.rule("WIT", "compile_fail,E0xxx doctests with compiling twins: the violating program does not type-check (DESIGN 3.16)")
+    info = run_witnesses(ctx.get("root") or build.REPO)
+    res = info["results"]
+    if not res:
+        ck.violation("WIT", "harness", "checker-selftest: the witness crate produced no doctest results:\n" + info["raw_tail"][-1200:])
+        return
+    n = 0
+    for wid in ids:
+        r = res.get(wid)
+        if r is None:
+            ck.violation("WIT", wid, "checker-selftest: witness %s did not run" % wid)
+            continue
+        n += 1
+        if r["twin"] is not True:
+            ck.violation("WIT", "%s_%s/twin" % (wid, r["name"]), "checker-selftest: the compiling twin of witness %s (%s) no longer compiles: the witness would pass for an unrelated reason" % (wid, r["name"]))
+            continue
+        ck.ob("WIT", "%s_%s" % (wid, r["name"]), r["fail"] is True,
+              ("witness %s: `%s` is rejected by the type checker with the expected error code; its twin compiles" % (wid, r["name"].replace("_", " "))) if r["fail"] else
+              ("witness %s: `%s` now COMPILES (or fails with another error): the typestate / encapsulation it documents no longer holds" % (wid, r["name"].replace("_", " "))))
+    ck.extra["witnesses"] = n
+
+
+if __name__ == "__main__":
+    import json
+    print(json.dumps(run_witnesses(sys.argv[1] if len(sys.argv) > 1 else build.REPO), indent=1)[:6000])
